@@ -655,6 +655,7 @@ var identNames = []string{"a", "b", "value", "to", "from", "_x", "amount", "data
 var oddNames = []string{"", "a#b", "%zz", "a b", "é", "details", "type", "properties", "a/b", "0", "\"q\"",
 	// the name is used as a URL by the schema compiler: scheme-like prefixes, a colon in the first segment, dot segments,
 	// the names of the meta-schema resources themselves (D20j: ':')
+	" a", "a ", " ", "\ta", "A", "a\n",
 	"A:b", ":", "1:b", "C:\\x", "Http://x/y", ".", "..", "ffi.json", "ffiParamDetails.json", "a?b", "a\x00b"}
 
 func distinctNames(r *cv.Rand, n int, odd bool) []string {
@@ -807,8 +808,11 @@ var badTypes = []string{"", "uint7", "uint264", "uint08", "int", "tuple7", "tupl
 
 // ---------- schema mutations ----------
 
-var jsonTypes = []string{"boolean", "integer", "number", "string", "array", "object", "null", "wibble", ""}
-var ethTypes = []string{"uint256", "int8", "bool", "string", "bytes", "bytes32", "address", "fixed128x18", "function", "tuple", "tuple[]", "uint256[]", "uint256[2][]", "tuple[][]", "uint", "uint7", "", "tuple7", "wibble[]"}
+var jsonTypes = []string{"boolean", "integer", "number", "string", "array", "object", "null", "wibble", "",
+	// near misses: other case, surrounding blanks (refused by the draft meta-schema where the compiler looks - not in a subtree it does not see)
+	"String", "Object", "ARRAY", "Integer", "Boolean", "Number", " string", "object ", "array\t"}
+var ethTypes = []string{"uint256", "int8", "bool", "string", "bytes", "bytes32", "address", "fixed128x18", "function", "tuple", "tuple[]", "uint256[]", "uint256[2][]", "tuple[][]", "uint", "uint7", "", "tuple7", "wibble[]",
+	"Uint256", " uint256", "uint256 ", "\tbool", "TUPLE", "tuple ", " tuple[]", "uint256[] ", "uint256 []", "String"}
 
 func otherKind(r *cv.Rand) *jv {
 	switch r.Intn(8) {
@@ -842,7 +846,7 @@ func mutate(r *cv.Rand, root *jv) (string, bool) {
 	n := nodes[r.Intn(len(nodes))]
 	nested := n != root
 	det := n.get("details")
-	switch c := r.Intn(26); {
+	switch c := r.Intn(30); {
 	case c == 0:
 		k := []string{"type", "details", "items", "properties", "oneOf"}[r.Intn(5)]
 		if n.del(k) {
@@ -1034,6 +1038,62 @@ func mutate(r *cv.Rand, root *jv) (string, bool) {
 			return "oneOf-beside-type", false
 		}
 		return "none", false
+	case c == 25 || c == 26: // a subtree moved under a spelling of its key that only encoding/json recognises: the
+		// jsonschema compile (draft meta-schema, FFI meta-schemas) no longer sees it, processField is alone - with one
+		// more fault planted inside it first
+		var ks []string
+		for _, k := range []string{"properties", "items"} {
+			if n.get(k).isObj() {
+				ks = append(ks, k)
+			}
+		}
+		if len(ks) == 0 {
+			return "none", false
+		}
+		k := ks[r.Intn(len(ks))]
+		sub := n.get(k)
+		inner := "intact"
+		var kids []*jv
+		if k == "items" {
+			kids = []*jv{sub}
+		} else {
+			for _, e := range sub.o {
+				if e.v.isObj() {
+					kids = append(kids, e.v)
+				}
+			}
+		}
+		if len(kids) > 0 && r.Intn(6) != 0 {
+			for try := 0; try < 8 && inner == "intact"; try++ {
+				if kd, _ := mutate(r, kids[r.Intn(len(kids))]); kd != "none" {
+					inner = kd
+				}
+			}
+		}
+		nk := map[string][]string{"properties": {"Properties", "PROPERTIES", "propertie\u017f"}, "items": {"Items", "ITEMS", "item\u017f"}}[k][r.Intn(3)]
+		for i := range n.o {
+			if n.o[i].k == k {
+				n.o[i].k = nk
+			}
+		}
+		return "hidden-subtree:" + inner, false
+	case c == 27: // details of its own on an inner level of an array chain / on the element schema
+		var its []*jv
+		for _, x := range nodes {
+			if it := x.get("items"); it.isObj() && it.get("details") == nil {
+				its = append(its, it)
+			}
+		}
+		if len(its) == 0 {
+			return "none", false
+		}
+		it := its[r.Intn(len(its))]
+		d := jobj(kv{"type", jstr(ethTypes[r.Intn(len(ethTypes))])})
+		if r.Bool() {
+			d.o = append(d.o, kv{"index", jnum(fmt.Sprint(r.Intn(3)))})
+		}
+		it.set("details", d)
+		return "inner-details-added", false
 	case c == 24: // a key encoding/json folds onto a field name (U+017F), unknown to the jsonschema compile
 		k := []string{"item\u017f", "detail\u017f", "propertie\u017f"}[r.Intn(3)]
 		var v *jv
@@ -1122,10 +1182,20 @@ func main() {
 			Kind string `json:"kind"`
 		}
 		json.Unmarshal(rp.Case, &k)
+		isOracleBack := (k.Kind == "method" || k.Kind == "event" || k.Kind == "error") && strings.Contains(string(rp.Case), `"params"`)
 		switch {
-		case strings.HasPrefix(k.Kind, "back/"):
+		case strings.HasPrefix(k.Kind, "back/") || isOracleBack:
+			// a case of the correspondence run, or the object of a Go-side oracle failure about one FFI -> ABI conversion
 			var d backDesc
 			json.Unmarshal(rp.Case, &d)
+			if isOracleBack {
+				var o struct {
+					Details json.RawMessage `json:"details"`
+				}
+				json.Unmarshal(rp.Case, &o)
+				d.Details = string(o.Details)
+				d.Kind = "back/" + d.Kind
+			}
 			kind := map[string]int{"back/method": 0, "back/event": 1, "back/error": 2}[d.Kind]
 			_, cls := h.addBackD(kind, d.Name, d.Params, d.Returns, d.Details, "replay", false)
 			for i := 0; i < 3; i++ { // state kept across calls: the same definition again
@@ -1291,7 +1361,42 @@ func main() {
 		}()
 	}
 	h.directedMembers()
+	// near-miss spellings (other case, surrounding blanks) of JSON type names and Ethereum types: at the levels the
+	// jsonschema compile sees, and in a subtree it does not see (key spelled as only encoding/json reads it)
+	for i, nm := range [][2]string{{"String", "string"}, {" string", "string"}, {"string ", "bytes"}, {"Integer", "uint256"}, {"Boolean", "bool"}, {"Number", "fixed128x18"},
+		{"string", " string"}, {"string", "string "}, {"string", "String"}, {"string", "\tbytes32"}, {"string", "Address"}, {"string", "uint256 "}, {"string", "UINT8"}} {
+		leaf := func(idx string) string {
+			return `{"type":"` + nm[0] + `","details":{"type":"` + nm[1] + `"` + idx + `}}`
+		}
+		h.addBack(i%3, "nm", []pdesc{{"x", leaf("")}}, nil, "corpus-near-miss", false)
+		h.addBack(i%3, "nm", []pdesc{{"x", `{"type":"object","details":{"type":"tuple"},"properties":{"a":` + leaf(`,"index":0`) + `}}`}}, nil, "corpus-near-miss", false)
+		h.addBack(i%3, "nm", []pdesc{{"x", `{"type":"object","details":{"type":"tuple"},"Properties":{"a":` + leaf(`,"index":0`) + `}}`}}, nil, "corpus-near-miss", false)
+		h.addBack(i%3, "nm", []pdesc{{"x", `{"type":"array","details":{"type":"tuple[]"},"Items":{"type":"object","properties":{"a":` + leaf(`,"index":0`) + `}}}`}}, nil, "corpus-near-miss", false)
+	}
+	for i, nm := range [][3]string{{"Object", "tuple", `"properties":{}`}, {"OBJECT", "tuple", `"properties":{"b":{"type":"string","details":{"type":"string","index":0}}}`}, {"Array", "uint8[]", `"items":{"type":"string"}`},
+		{"object", "Tuple", `"properties":{}`}, {"object", "tuple ", `"properties":{}`}, {"array", "uint8[] ", `"items":{"type":"string"}`}, {"array", "uint8 []", `"items":{"type":"string"}`}, {"array", " tuple[]", `"items":{"type":"object"}`}} {
+		node := func(idx string) string {
+			return `{"type":"` + nm[0] + `","details":{"type":"` + nm[1] + `"` + idx + `},` + nm[2] + `}`
+		}
+		h.addBack(i%3, "nm", []pdesc{{"x", node("")}}, nil, "corpus-near-miss", false)
+		h.addBack(i%3, "nm", []pdesc{{"x", `{"type":"object","details":{"type":"tuple"},"Properties":{"a":` + node(`,"index":0`) + `}}`}}, nil, "corpus-near-miss", false)
+	}
+	// details of its own on an inner level of an array chain: the descent goes on to the element schema
+	h.addBack(0, "f", []pdesc{{"x", `{"type":"array","details":{"type":"tuple[][]"},"items":{"type":"array","details":{"type":"tuple[]"},"items":{"type":"object","properties":{"a":{"type":"string","details":{"type":"string","index":0}}}}}}`}}, nil, "corpus", false)
+	h.addBack(1, "f", []pdesc{{"x", `{"type":"array","details":{"type":"tuple[][][]"},"items":{"type":"array","items":{"type":"array","details":{"type":"uint8[]","index":0},"items":{"type":"object","details":{"type":"tuple"},"properties":{"a":{"type":"string","details":{"type":"string","index":0}}}}}}}`}}, nil, "corpus", false)
 
+	// --- forward corpus: names that differ only by blanks / case, as parameters and as tuple members ---
+	{
+		nmNames := []string{" a", "a ", "a", "A", " ", "", "\ta", "a\n", " a "}
+		var ps, ms abi.ParameterArray
+		for _, n := range nmNames {
+			ms = append(ms, &abi.Parameter{Name: n, Type: "uint8"})
+		}
+		for _, n := range nmNames {
+			ps = append(ps, &abi.Parameter{Name: n, Type: "tuple[]", Components: ms})
+		}
+		h.addFwd(abi.ABI{{Type: abi.Function, Name: "nm", Inputs: ps, Outputs: ps}, {Type: abi.Event, Name: "Nm", Inputs: ps[:3]}}, "near-miss-names", true)
+	}
 	// --- forward corpus: degenerate ABIs ---
 	h.addFwd(abi.ABI{}, "degenerate-abi", true)
 	h.addFwd(abi.ABI{{Type: abi.Constructor, Inputs: abi.ParameterArray{{Name: "a", Type: "uint256"}}}, {Type: abi.Fallback}, {Type: abi.Receive}}, "degenerate-abi", true)
